@@ -10,6 +10,7 @@ import (
 func init() {
 	vHarnesses["VerifC10Own"] = VerifC10Own
 	vHarnesses["VerifC10Ops"] = VerifC10Ops
+	vHarnesses["VerifC10ObjOps"] = VerifC10ObjOps
 	vHarnesses["VerifC10Canary"] = VerifC10Canary
 }
 
@@ -86,6 +87,56 @@ func VerifC10Ops() {
 		vAssert(refEq(p, r, modeList, 0), "jd applied a JSON Patch with a result other than the RFC 6902 result")
 	}
 	vCover("c10.ops.applied")
+}
+
+// VerifC10ObjOps: short sequences of test/remove/add operations on object members, nested
+// members and members below a missing parent, against objects whose members may be absent.
+func VerifC10ObjOps() {
+	k := 1 + vChoice(vParam("OPS", 3))
+	inner := jsonObject{}
+	if vChoice(2) == 1 {
+		inner["k"] = vNum()
+	}
+	doc := jsonObject{"m": inner}
+	if vChoice(2) == 1 {
+		doc["k"] = vNum()
+	}
+	if vChoice(2) == 1 {
+		doc["a/b"] = vNum()
+	}
+	paths := [...]string{"/k", "/m/k", "/a~1b", "/q/k", "/m", ""}
+	ops := make([]patchElement, k)
+	ref := make([]refPatchOp, k)
+	for j := range ops {
+		kind := [...]string{"test", "remove", "add"}[vChoice(3)]
+		path := paths[vChoice(vParam("PATHS", 6))]
+		var v interface{} = vF64()
+		var vn JsonNode = jsonNumber(v.(float64))
+		if vParam("OBJVALS", 1) == 1 && vChoice(3) == 2 {
+			v, vn = map[string]interface{}{}, jsonObject{}
+		}
+		ops[j] = patchElement{Op: kind, Path: path, Value: v}
+		ref[j] = refPatchOp{op: kind, path: path, value: vn, has: true}
+	}
+	text, _ := json.Marshal(ops)
+	vObserve("patch", string(text))
+	d, err := ReadPatchString(string(text))
+	if err != nil {
+		vCover("c10.objops.rejected")
+		return // stricter is allowed
+	}
+	p, err := vClone(doc).Patch(d)
+	if err != nil {
+		vCover("c10.objops.notapplied")
+		return
+	}
+	r, ok := ref6902(doc, ref)
+	vObserve("result", p.Json())
+	vAssert(r != nil && ok, "jd read and applied a JSON Patch on object members that fails under RFC 6902")
+	if r != nil {
+		vAssert(refEq(p, r, modeList, 0), "jd applied a JSON Patch on object members with a result other than the RFC 6902 result")
+	}
+	vCover("c10.objops.applied")
 }
 
 // VerifC10Canary must be violated.
